@@ -1761,7 +1761,9 @@ func ReadTerm(vm *VM, streamOrAlias, out, options Term, k Cont, env *Env) *Promi
 
 	p := NewParser(vm, s)
 	t, err := p.Term()
-	_ = s.UnreadRune() // The parser has read one rune ahead. Give it back before anything else reads from s.
+	if err != io.EOF { // The end of file is delivered, not looked ahead at.
+		_ = s.UnreadRune() // The parser has read one rune ahead. Give it back before anything else reads from s.
+	}
 	switch err {
 	case nil:
 		break
